@@ -56,6 +56,38 @@ pub fn check_openings(cx: &mut Cx, frame: &str, v: &Value, secrets: &[Secret], p
             }
         }
     }
+    // the same opening randomness used for two commitments of one frame (their quotient is then a
+    // commitment without blinding: g_i^m_i / g_j^m_j)
+    for (i, (pa, _, ra)) in objs.iter().enumerate() {
+        for (pb, _, rb) in objs.iter().skip(i + 1) {
+            if ra == rb && ra.significant_bits() > 64 {
+                cx.violation("C17", format!("{frame}/randomness-reused/{}={}", generic_path(pa), generic_path(pb)), format!("{pa} and {pb} carry the same randomness"));
+            }
+        }
+    }
+    // two responses of one array whose difference is an exact multiple of a challenge, the quotient
+    // being the difference of two hidden attributes (both were masked with the same nonce)
+    {
+        let ls = leaves(v);
+        let hidden: Vec<&Integer> = secrets.iter().filter(|s| s.kind == "hidden-attribute").map(|s| &s.value).collect();
+        let chals: Vec<Integer> = ls.iter().filter(|(p, _)| { let l = p.rsplit('.').next().unwrap_or(""); l == "challenge" || l == "C" }).map(|(_, x)| x.clone()).collect();
+        for (i, (pa, xa)) in ls.iter().enumerate() {
+            if !pa.ends_with(']') { continue; }
+            for (pb, xb) in ls.iter().skip(i + 1) {
+                if generic_path(pa) != generic_path(pb) { continue; }
+                let d = Integer::from(xa - xb);
+                if d == 0 { cx.violation("C17", format!("{frame}/{}/responses-equal", generic_path(pa)), format!("{pa} == {pb}")); continue; }
+                for c in &chals {
+                    if *c <= 1 || !d.is_divisible(c) { continue; }
+                    let q = Integer::from(&d / c);
+                    for (k, ma) in hidden.iter().enumerate() { for mb in hidden.iter().skip(k + 1) {
+                        let dm = Integer::from(*ma - *mb);
+                        if q == dm || q == Integer::from(-&dm) { cx.violation("C17", format!("{frame}/{}/recovers-difference/hidden-attributes", generic_path(pa)), format!("({pa} - {pb}) / challenge equals the difference of two hidden attributes exactly")); }
+                    } }
+                }
+            }
+        }
+    }
     // secrets recoverable by one exact division of a leaf by a challenge or by 1 + challenge
     let ls = leaves(v);
     let chals: Vec<(String, Integer)> = ls.iter().filter(|(p, _)| { let l = p.rsplit('.').next().unwrap_or(""); l == "challenge" || l == "C" }).map(|(p, x)| (generic_path(p), x.clone())).collect();
@@ -102,6 +134,9 @@ pub fn check_masking(cx: &mut Cx, frame: &str, v: &Value, secrets: &[Secret], ex
             if *c <= 0 { continue; }
             let q = Integer::from(*s / c);
             for x in secrets {
+                // a short secret (0, 42, a timestamp) is within 2^64 of ANY small quotient: for those
+                // only the challenge of the response's own sub-proof is a meaningful divisor
+                if x.value.significant_bits() <= 128 && !same_subproof(rp, cp) { continue; }
                 cx.count("n.division_tests");
                 if Integer::from(&q - &x.value).abs() < bound {
                     cx.violation("C19", format!("{frame}/{rp}/div/{cp}/{}", x.kind), format!("floor({rp} / {cp}) is within 2^64 of the sender's {} (difference {})", x.kind, Integer::from(&q - &x.value)));
@@ -112,7 +147,7 @@ pub fn check_masking(cx: &mut Cx, frame: &str, v: &Value, secrets: &[Secret], ex
             if rp == rp2 && std::ptr::eq(*s, *s2) { continue; }
             let q = Integer::from(*s / *s2);
             if q.significant_bits() <= 64 { continue; } // quotients of similar-size responses say nothing about 256-bit secrets
-            for x in secrets {
+            for x in secrets.iter().filter(|x| x.value.significant_bits() > 128) {
                 cx.count("n.division_tests");
                 if Integer::from(&q - &x.value).abs() < bound {
                     cx.violation("C19", format!("{frame}/{rp}/div/{rp2}/{}", x.kind), format!("floor({rp} / {rp2}) is within 2^64 of the sender's {} (difference {})", x.kind, Integer::from(&q - &x.value)));
@@ -139,8 +174,10 @@ pub fn run(cx: &mut Cx, which: Which) {
     let (n, hidden) = crate::scen_blind::combo(cx.ch.forced("combo", 57, cx.run_index.wrapping_mul(23)));
     let trusted = cx.ch.chance("trusted_party", 1, 3);
     let seed = cx.run_seed;
-    // full 256-bit attributes only (DESIGN.md Appendix A.18)
-    let msgs: Vec<Integer> = (0..n).map(|i| gen_attr(seed, i as u64, 0).value).collect();
+    // mostly full 256-bit attributes; some short ones (0, 42, a timestamp): the response / challenge
+    // clause is meaningful for them too, the response / response clause is applied to long secrets
+    // only (DESIGN.md Appendix A.18)
+    let msgs: Vec<Integer> = (0..n).map(|i| match cx.ch.weighted("attr_size", &[5, 1, 1, 1]) { 0 => gen_attr(seed, i as u64, 0).value, 1 => Integer::from(0), 2 => Integer::from(42), _ => Integer::from(1_790_000_000u64 + i as u64) }).collect();
     let decoy = gen_attr(seed, 9999, 0).value;
     cx.log(format!("session: key#{} n={n} hidden={hidden:?} trusted={trusted}", key.idx));
     cx.cell(format!("shape|n{n}|U{}|trusted{}", hidden.len(), trusted as u8));
@@ -266,3 +303,14 @@ pub fn run(cx: &mut Cx, which: Which) {
 
 pub fn run_c17(cx: &mut Cx) { run(cx, Which::Openings) }
 pub fn run_c19(cx: &mut Cx) { run(cx, Which::Masking) }
+
+/// do a response path and a challenge path belong to the same sub-proof (same first component)?
+fn same_subproof(rp: &str, cp: &str) -> bool {
+    fn head(p: &str) -> &str {
+        let p = p.strip_prefix("recomputed:").unwrap_or(p);
+        let p = p.strip_prefix("CL03.").unwrap_or(p);
+        let end = p.find(|c| c == '.' || c == '[').unwrap_or(p.len());
+        &p[..end]
+    }
+    head(rp) == head(cp)
+}
